@@ -184,6 +184,21 @@ pub fn run_case(out: &mut Out, ndev: usize, history: &[Step], probe: &Spec, tag:
             }
         }
     }
+    // (2b) hidden state of the addressed resource shows in what a follow-up request is allowed to do: after a
+    // Gain to a segment, SwapSegment::Gain to that segment is acceptable on a fresh device; it must be after any history
+    if verdict.is_none() && accepted && rc == "ok" {
+        if let Spec::Gain { seg, .. } = probe {
+            let follow = Spec::SwapGain(*seg, (0xFF, 0));
+            let fa = a.send(&follow);
+            let fc = c.apply(&Step::Send(follow.clone()));
+            if fa != "panic" && fc != "panic" && fa.starts_with("R=ok") != (fc == "ok") {
+                verdict = Some(format!(
+                    "after `gain` to segment {seg}, `swapgain {seg}` answered {} after this history but {} on a fresh device",
+                    fa.split(' ').next().unwrap_or(""), fc
+                ));
+            }
+        }
+    }
     // (3) Clear returns to the power-on observable state
     if verdict.is_none() {
         let rclr = a.send(&Spec::Clear);
